@@ -24,7 +24,9 @@ TEST = "TestVerifC28"
 
 def regen(ctx):
     facts = cgen.extract(REPO, go_env())
-    ctx.write_gen("ControlCodec.lean", cgen.render(facts))
+    text = cgen.render(facts)
+    ctx.write_gen("ControlCodec.lean", text)
+    ctx.gen_stamp = cgen.stamp_of(text)
     return facts
 
 
@@ -285,10 +287,14 @@ def run(ctx):
         corpus = [l.strip() for l in open(os.path.join(HERE, "corpus.ops")) if l.strip() and not l.startswith("#")]
         ops = corpus + gen_ops(ctx.rng, facts, ctx.scale(500, 15000))
     ctx.log(f"harness built; {len(ops)} op lines")
-    model = ctx.lean_run(ops)
+    model = ctx.lean_run(["stamp"] + ops)
     if model is None:
         proofs_ok = False
         model = []
+    else:
+        if not model or model[0] != "stamp=" + str(getattr(ctx, "gen_stamp", None)):
+            raise RuntimeError("driver binary is not built from the regenerated codec")
+        model = model[1:]
     impl = G.go_run_parallel(ctx, binary, TEST, ops, nproc=3)
     if ctx.last_go_crash:
         ctx.notes.append("harness process: " + str(ctx.last_go_crash)[-600:])
